@@ -132,12 +132,23 @@ func (in *inst) Exec(t int, op vdrv.Op) string {
 	case "E":
 		ti := in.info(id)
 		ti.submitted = true
-		ti.task = in.p.Execute(in.executor(id, int(op.Arg(1))))
+		// Execute(f) and ExecuteWithCtx(nil, f) are documented to be the same submission (the pool's context)
+		if id%2 == 1 {
+			ti.task = in.p.ExecuteWithCtx(nil, in.executor(id, int(op.Arg(1))))
+		} else {
+			ti.task = in.p.Execute(in.executor(id, int(op.Arg(1))))
+		}
 		return "u"
 	case "Y":
 		ti := in.info(id)
 		ti.submitted = true
-		tk, ok := in.p.TryExecute(in.executor(id, int(op.Arg(1))))
+		var tk *wp.Task
+		var ok bool
+		if id%2 == 1 {
+			tk, ok = in.p.TryExecuteWithCtx(nil, in.executor(id, int(op.Arg(1))))
+		} else {
+			tk, ok = in.p.TryExecute(in.executor(id, int(op.Arg(1))))
+		}
 		ti.task = tk
 		if ok {
 			return "b1"
